@@ -757,13 +757,13 @@ func (g *fgen) genSub(depth int, create bool) *fsub {
 		s.body = g.genBody(depth + 2) // shallow init code
 		// runtime code returned by the init code: empty, tiny, 0xEF-prefixed, or large enough (600 / 20000 zero bytes = 120k / 4M gas of
 		// code deposit) that a creation inside a gas-limited frame fails at the deposit, after the init code ran
-		s.runtime = [][]byte{{}, {0x00}, {0x60, 0x00}, {0xef, 0x00}, make([]byte, 600), make([]byte, 20000)}[g.r.Intn(6)]
+		s.runtime = [][]byte{{}, {0x00}, {0x60, 0x00}, {0xef, 0x00}, make([]byte, 600), make([]byte, 20000), make([]byte, 24577)}[g.r.Intn(7)] // the last one exceeds MaxCodeSize
 		s.end = []byte{opRETURN, opRETURN, opRETURN, opREVERT, opINVALID, opSTOP}[g.r.Intn(6)]
 		s.addr = g.newAddr(0xb0) // blob holding the init code
 		return s
 	}
 	s.op = []byte{opCALL, opCALL, opCALL, opCALLCODE, opDELEGATECALL, opSTATICCALL}[g.r.Intn(6)]
-	s.target = []string{"code", "code", "code", "code", "code", "eoa", "none", "precompile"}[g.r.Intn(8)]
+	s.target = []string{"code", "code", "code", "code", "code", "eoa", "none", "precompile", "precompile"}[g.r.Intn(9)]
 	s.argsOff, s.argsLen = []int{0, 0, 32, 64}[g.r.Intn(4)], []int{0, 4, 32, 36, 64}[g.r.Intn(5)]
 	s.retOff, s.retLen = []int{0, 0, 32, 96}[g.r.Intn(4)], []int{0, 32, 64}[g.r.Intn(3)]
 	s.overwrite = g.r.Chance(50)
@@ -784,6 +784,16 @@ func (g *fgen) genSub(depth int, create bool) *fsub {
 		s.addr = common.BytesToAddress([]byte{4})
 		if g.r.Chance(30) {
 			s.addr = common.BytesToAddress([]byte{2})
+		} else if g.r.Chance(55) {
+			// precompiles that FAIL on the argument pattern (point not on the curve, bad input length): a failing precompile
+			// frame - half of the time reached by a CALL that carries value, so that there is something to roll back
+			s.addr = common.BytesToAddress([]byte{[]byte{6, 7, 9, 9}[g.r.Intn(4)]})
+			if s.argsLen == 0 {
+				s.argsLen = 36
+			}
+			if g.r.Bool() {
+				s.op, s.value = opCALL, 1
+			}
 		}
 	}
 	return s
@@ -945,6 +955,34 @@ func runFrameCase(r *Rng, em *Emitter, label string, tags string) {
 	if r.Chance(50) {
 		g.aspects[root] = &aspectScript{pre: g.outcome(), post: g.outcome()}
 	}
+	if r.Chance(3) {
+		// the depth limit: under Homestead rules (all gas may be forwarded) a contract that calls itself until the 1025th
+		// invocation is refused; every level then makes one more call of another kind, which is refused as well
+		fork = "Homestead"
+		for k := range g.codes {
+			delete(g.codes, k)
+		}
+		for k := range g.aspects {
+			delete(g.aspects, k)
+		}
+		g.blobs, g.eoas = map[common.Address][]byte{}, nil
+		a := &Asm{}
+		a.Op(opPUSH1, 0, opPUSH1, 0, opPUSH1, 0, opPUSH1, 0, opPUSH1, 0, opADDRESS)
+		a.PushU(2000).Op(opGAS, opSUB) // GAS - 2000
+		a.Op(opCALL, opPOP)
+		second := []byte{opCALLCODE, opDELEGATECALL, opCREATE}[r.Intn(3)]
+		switch second {
+		case opCREATE:
+			a.Op(opPUSH1, 0, opPUSH1, 0, opPUSH1, 0, opCREATE, opPOP)
+		case opDELEGATECALL:
+			a.Op(opPUSH1, 0, opPUSH1, 0, opPUSH1, 0, opPUSH1, 0, opADDRESS).PushU(1000).Op(opDELEGATECALL, opPOP)
+		default:
+			a.Op(opPUSH1, 0, opPUSH1, 0, opPUSH1, 0, opPUSH1, 0, opPUSH1, 0, opADDRESS).PushU(1000).Op(opCALLCODE, opPOP)
+		}
+		a.Op(opSTOP)
+		g.codes[root] = a.Bytes()
+		em.Count("frame:depth-limit")
+	}
 
 	sdb := newStateDB()
 	lg := &frameLogger{db: sdb, failedEffs: map[uint64]bool{}, keptEffs: map[uint64]bool{}, journaled: map[string]bool{}, accounts: map[common.Address]bool{}}
@@ -976,11 +1014,20 @@ func runFrameCase(r *Rng, em *Emitter, label string, tags string) {
 	fi := forkIndex(fork)
 	lg.rules = map[string]string{"e158": b01(fi >= 3), "hs": b01(fi >= 1), "ber": b01(fi >= 8), "lon": b01(fi >= 9)}
 	initialBal := map[common.Address]*big.Int{callerAddr: big.NewInt(1_000_000)}
-	for a, c := range g.codes {
+	codeAddrs := make([]common.Address, 0, len(g.codes))
+	for a := range g.codes {
+		codeAddrs = append(codeAddrs, a)
+	}
+	sort.Slice(codeAddrs, func(i, j int) bool { return hexAddr(codeAddrs[i]) < hexAddr(codeAddrs[j]) }) // random choices below: fixed order
+	for _, a := range codeAddrs {
+		c := g.codes[a]
 		sdb.CreateAccount(a)
 		sdb.SetCode(a, c)
 		sdb.AddBalance(a, big.NewInt(1000))
 		initialBal[a] = big.NewInt(1000)
+		if r.Chance(4) {
+			sdb.SetNonce(a, ^uint64(0)) // a creator whose nonce cannot be incremented: its CREATEs are refused up front
+		}
 	}
 	for _, a := range g.eoas {
 		initialBal[a] = big.NewInt(5)
@@ -1170,7 +1217,12 @@ func runFrameCase(r *Rng, em *Emitter, label string, tags string) {
 			ans = showChangeMap(b.Changes())
 		}
 		em.Op("C13", "Q bal "+hexAddr(a), ans)
+		jkeys := make([]string, 0, len(lg.journaled))
 		for k := range lg.journaled {
+			jkeys = append(jkeys, k)
+		}
+		sort.Strings(jkeys) // the harness itself must be deterministic: S det compares two runs line for line
+		for _, k := range jkeys {
 			f := strings.Fields(k)
 			slot, _ := uint256.FromHex("0x" + f[0])
 			off, _ := uint256.FromHex("0x" + f[1])
@@ -1295,7 +1347,44 @@ func driveFrame(seed uint64, n int, size int, em *Emitter) {
 	r := NewRng(seed)
 	initHost()
 	for i := 0; i < n; i++ {
-		runFrameCase(r.Fork(), em, fmt.Sprintf("frame-%d-%d", seed, i), "*")
+		cr := r.Fork()
+		replay := *cr
+		ce, first := captureEmitter()
+		runFrameCase(cr, ce, fmt.Sprintf("frame-%d-%d", seed, i), "*")
+		for _, l := range *first {
+			em.Op(l[0], l[1], l[2])
+		}
+		em.Merge(ce)
+		// C16 at the level of whole call trees: the same transaction(s) on equal pre-state in a fresh EVM - results, call tree,
+		// journal, balances, join-point log, callbacks, tracer output - line for line
+		if i%5 == 0 {
+			ce2, second := captureEmitter()
+			runFrameCase(&replay, ce2, fmt.Sprintf("frame-%d-%d", seed, i), "*")
+			v := "same"
+			if len(*first) != len(*second) {
+				v = fmt.Sprintf("differs:%d_lines_vs_%d", len(*first), len(*second))
+				for k := 0; k < len(*first) && k < len(*second); k++ {
+					if (*first)[k] != (*second)[k] {
+						v += ":first_at_" + strings.ReplaceAll((*first)[k][1]+"=>"+(*first)[k][2]+"_VS_"+(*second)[k][1]+"=>"+(*second)[k][2], " ", "_")
+						if len(v) > 400 {
+							v = v[:400]
+						}
+						break
+					}
+				}
+			} else {
+				for k := range *first {
+					if (*first)[k] != (*second)[k] {
+						v = "differs:" + strings.ReplaceAll((*first)[k][1], " ", "_")
+						if len(v) > 200 {
+							v = v[:200]
+						}
+						break
+					}
+				}
+			}
+			em.Op("C16", "S det", v)
+		}
 	}
 }
 
